@@ -112,6 +112,7 @@ type CSVBounds struct {
 	Long             bool
 	BigRows          bool // allow the >=1000 row RowCountHint path
 	BigRare          bool // ... but rarely (quick tier)
+	Cardinality      bool // now and then a column with 254..258 distinct values declared enum
 }
 
 // DrawCSV draws a well-formed document inside the space whose meaning is
@@ -149,10 +150,18 @@ func DrawCSV(t *rapid.T, b CSVBounds) *CSVCase {
 	for i := 0; i < ncols; i++ {
 		var name string
 		if odd && rapid.IntRange(0, 2).Draw(t, "oddname") == 0 {
-			if rapid.Bool().Draw(t, "emptyname") || i == 0 {
+			switch k := rapid.IntRange(0, 2).Draw(t, "oddkind"); {
+			case k == 0 || i == 0:
 				name = ""
-			} else {
+			case k == 1:
 				name = c.Names[rapid.IntRange(0, i-1).Draw(t, "dupof")]
+			default:
+				// a literal name that is exactly what renaming an earlier
+				// duplicate would pick ("a", "a", "a0")
+				name = c.Names[rapid.IntRange(0, i-1).Draw(t, "dupof")] + strconv.Itoa(rapid.IntRange(0, 1).Draw(t, "litsuffix"))
+				if seen[name] || !validName(name) {
+					name = c.Names[i-1]
+				}
 			}
 			c.OddHeader = true
 		} else {
@@ -181,6 +190,12 @@ func DrawCSV(t *rapid.T, b CSVBounds) *CSVCase {
 	for i := range flav {
 		flav[i] = rapid.IntRange(0, 4).Draw(t, "flavour")
 	}
+	cardinality := 0
+	if b.Cardinality && !big && !c.OddHeader && Rare(t, "cardinality", 300) {
+		// the enum cardinality limit: one column with 254..258 distinct values
+		cardinality = rapid.IntRange(254, 258).Draw(t, "distinctvals")
+		nrows = cardinality + rapid.IntRange(0, 3).Draw(t, "cardextra")
+	}
 	for r := 0; r < nrows; r++ {
 		row := make([]string, ncols)
 		for i := range row {
@@ -191,6 +206,11 @@ func DrawCSV(t *rapid.T, b CSVBounds) *CSVCase {
 					if growAfter > 0 && r >= growAfter {
 						row[i] += strings.Repeat("w", growBy*(1+i%2))
 					}
+				}
+			} else if cardinality > 0 {
+				row[i] = "v" + strconv.Itoa((r*7+i)%cardinality)
+				if i > 0 {
+					row[i] = strconv.Itoa(r % 5)
 				}
 			} else {
 				row[i] = drawCell(t, flav[i], c.Delim, b.Long)
@@ -205,7 +225,9 @@ func DrawCSV(t *rapid.T, b CSVBounds) *CSVCase {
 	}
 
 	// declared types
-	if !c.OddHeader && rapid.IntRange(0, 2).Draw(t, "declare") == 0 {
+	if cardinality > 0 {
+		c.Types = map[string]string{c.Names[0]: "enum"}
+	} else if !c.OddHeader && rapid.IntRange(0, 2).Draw(t, "declare") == 0 {
 		c.Types = map[string]string{}
 		for i, n := range c.Names {
 			switch rapid.IntRange(0, 7).Draw(t, "decl") {
